@@ -760,8 +760,9 @@ class MultiFit(FitBase):
                 relative=relative,
                 fit_indices=fits,
             )
-            _matrix_error.check_cov_mat_symmetry()
-            return self._add_error_object(error_object=_matrix_error, reference=reference, name=name, axis=axis)
+            _name = self._add_error_object(error_object=_matrix_error, reference=reference, name=name, axis=axis)
+            _matrix_error.check_cov_mat_symmetry()  # needs the reference values of relative errors
+            return _name
 
     def add_error(
         self,
